@@ -213,7 +213,7 @@ def check_run(spec, obs, ref, run_idx=0, cancelled_ok=None):
                 stt['retry_next'] = matches(e[2], nd['exceptions']) and stt['att'] < a
         elif e[0] == 'default':
             stt = state.get(e[1])
-            if stt is not None and not (isinstance(spec['nodes'][e[1]]['beh'], list) and spec['nodes'][e[1]]['beh'][0] == 'recur'):
+            if stt is not None and not (isinstance(spec['nodes'][e[1]]['beh'], list) and spec['nodes'][e[1]]['beh'][0] in ('recur', 'receven')):
                 if e[2] != stt['kw']:
                     P['C12'].append('node %d: get_default called with other arguments than the body: %s vs %s'
                                     % (e[1], json.dumps(e[2])[:120], json.dumps(stt['kw'])[:120]))
